@@ -386,6 +386,16 @@ def ascii_ok(text):
 
 
 def impl_parse(P, text):
+    if zlib.crc32(text.encode("utf-8", "replace")) % 3 == 0:
+        # what a parse returns belongs to the caller: an earlier user of the same text edits the dataset they got
+        # (renames it, drops its first variable); the parse below must still say what the text declares
+        try:
+            scratch = P["dds_to_dataset"](text)
+            scratch.name = "edited-by-an-earlier-caller"
+            for k in list(scratch.keys())[:1]:
+                del scratch[k]
+        except Exception:
+            pass
     try:
         d = P["dds_to_dataset"](text)
     except Exception as e:
